@@ -126,6 +126,7 @@ class VFunc(Val):
     closure: Any = None  # dict of captured locals (by reference to State at def time)
     qual: str = ""
     cls: Any = None  # (module, class) where defined, for super()
+    decorated: bool = False  # decorators already applied (composition built by the engine)
 
 
 @dataclass(frozen=True)
